@@ -21,6 +21,9 @@ PKGS = ("inference", "parser", "infocf")
 def apply_variant(root, tmp, v):
     for pkg in PKGS:
         shutil.copytree(os.path.join(root, pkg), os.path.join(tmp, pkg), ignore=shutil.ignore_patterns("__pycache__"))
+    if v.get("patch"):
+        r = subprocess.run(["patch", "-p1", "-s", "-i", v["patch"]], cwd=tmp, capture_output=True, text=True)
+        return "ok" if r.returncode == 0 else "anchor-missing"
     for e in v["edits"]:
         p = os.path.join(tmp, e["file"])
         s = open(p).read()
@@ -78,6 +81,49 @@ def verdict(v, res):
     return "ok"
 
 
+def load_variants():
+    """Hand-written and harvested variants of selftest/corpus.json plus the sub-agent changes kept under seeded/ (each must
+    be reported by every check recorded in its meta.json)."""
+    import glob
+
+    vs = list(json.load(open(os.path.join(VERIF, "selftest", "corpus.json")))["variants"])
+    for mp in sorted(glob.glob(os.path.join(VERIF, "seeded", "*", "meta.json"))):
+        m = json.load(open(mp))
+        d = os.path.dirname(mp)
+        if not m.get("detected_by"):
+            continue
+        vs.append({"id": "seed-" + os.path.basename(d), "expect": "fire", "props": list(m["detected_by"]), "patch": os.path.join(d, "patch.diff"),
+                   "rules": m.get("rules", {}), "note": m.get("what", "")})
+    return vs
+
+
+def for_property(prop, root="/repo", jobs=16):
+    """Self-validation of one property's check (thorough tier): its must-fire / must-stay-silent variants."""
+    vs = []
+    for v in load_variants():
+        if prop in v["props"]:
+            w = dict(v)
+            w["props"] = [prop]
+            if isinstance(w.get("rules"), dict):
+                w["rules"] = {prop: w["rules"].get(prop)} if w["rules"].get(prop) else {}
+            vs.append(w)
+    t0 = time.time()
+    with cf.ThreadPoolExecutor(jobs) as ex:
+        res = list(ex.map(lambda v: run_variant(root, v), vs))
+    rows = [(v, verdict(v, r)) for v, r in zip(vs, res)]
+    out = {
+        "must_fire": sum(1 for v, _ in rows if v["expect"] == "fire"),
+        "fired_as_expected": sum(1 for v, d in rows if v["expect"] == "fire" and d == "ok"),
+        "must_stay_silent": sum(1 for v, _ in rows if v["expect"] == "silent"),
+        "silent_as_expected": sum(1 for v, d in rows if v["expect"] == "silent" and d == "ok"),
+        "stale_variants": sum(1 for _, d in rows if d.startswith("stale")),
+        "unexpected": [{"id": v["id"], "verdict": d} for v, d in rows if d != "ok" and not d.startswith("stale")],
+        "wall_s": round(time.time() - t0, 2),
+        "note": "variants are applied to scratch copies of /repo's packages; the outcome never changes this check's verdict on /repo",
+    }
+    return out
+
+
 def main(argv):
     root = "/repo"
     only = None
@@ -89,8 +135,7 @@ def main(argv):
             only = a.split("=", 1)[1]
         elif a.startswith("--jobs="):
             jobs = int(a.split("=", 1)[1])
-    corpus = json.load(open(os.path.join(VERIF, "selftest", "corpus.json")))
-    vs = [v for v in corpus["variants"] if not only or only in v["id"] or only in v["props"]]
+    vs = [v for v in load_variants() if not only or only in v["id"] or only in v["props"]]
     t0 = time.time()
     with cf.ThreadPoolExecutor(jobs) as ex:
         res = list(ex.map(lambda v: run_variant(root, v), vs))
